@@ -140,7 +140,8 @@ def extra_race(B, tier, seed):
     res = {'suite': 'race(-race, 16 goroutines)', 'cases': 0, 'violations': []}
     exe = B + '/bin/harness-race'
     if not os.path.exists(exe):
-        rc, out, err = _run(['go', 'build', '-race', '-tags', 'verif', '-o', exe, '.'], 1500, cwd='/verif/harness')
+        hdir = B + '/harness-src' if os.path.isdir(B + '/harness-src') else '/verif/harness'
+        rc, out, err = _run(['go', 'build', '-race', '-tags', 'verif', '-o', exe, '.'], 1500, cwd=hdir)
         if rc != 0:
             res['error'] = 'cannot build the harness with -race: ' + (out + err)[-800:]
             return res
@@ -199,3 +200,9 @@ PROPS['C11']['suites'] = ['c11', 'sweep-skipValueFast']
 PROPS['C07']['suites'] = ['c07', 'sweep-handleArrayValues', 'sweep-handleObjectValues']
 PROPS['C13']['suites'] = ['c13', 'sweep-readNull', 'sweep-readBool']
 PROPS['C06']['suites'] = ['c06', 'sweep-appendRemainderOfString', 'sweep-unescapeStringContent']
+
+# the certified simulation tie of every regenerated machine to its specification machine
+for _p in ('C01', 'C02', 'C06', 'C07', 'C11', 'C13', 'C03', 'C08'):
+    PROPS[_p]['run_files'] = PROPS[_p]['run_files'] + ['TieSim.v']
+    PROPS[_p]['static_files'] = PROPS[_p]['static_files'] + ['Sim.v', 'SpecMachines.v']
+PROPS['C12'].update(run_files=['Tie.v', 'TieWf.v'], static_files=MACH_STATIC + ['DecodeFacts.v'])
